@@ -94,10 +94,34 @@ def run(fx, R, tier, lat_deg=None, heights=None):
     if ok_e:
         A, B = sp.Symbol('arg:A', real=True), sp.Symbol('arg:B', real=True)
         f_ = es[0].fields
-        ok_e = f_.get(('this', 'a')) == A and f_.get(('this', 'b')) == B and sp.simplify(f_.get(('this', 'e2'), sp.nan) - (A ** 2 - B ** 2) / A ** 2) == 0
-        ok_e = ok_e and sp.simplify(f_.get(('this', 'e'), sp.nan) - sp.sqrt((A ** 2 - B ** 2) / A ** 2)) == 0
-    R.check(bool(ok_e), 'F1', 'EarthEllipsoid:e2', 'EarthEllipsoid(a,b) does not define e2 = (a^2-b^2)/a^2 and e = sqrt(e2): %s' % (es[0].fields if es else None),
-            'e2 = (a^2 - b^2)/a^2, e = sqrt(e2)', fx.rel(ell[0]['loc']), 'E-ALG')
+        ab_ok = f_.get(('this', 'a')) == A and f_.get(('this', 'b')) == B
+        e2v, ev = f_.get(('this', 'e2')), f_.get(('this', 'e'))
+        dom_ = lambda s_: (637750000, 638450000) if s_.name == 'arg:A' else (635600000, 637700000) if s_.name == 'arg:B' else None
+        if not ab_ok or not isinstance(e2v, sp.Basic) or not isinstance(ev, sp.Basic):
+            R.undecided('F1', 'EarthEllipsoid:e2', 'constructor fields not readable: %s' % ({k_: str(v_)[:60] for k_, v_ in f_.items()},))
+        else:
+            alg.check_zero(R, sp.Matrix([sp.together(e2v - (A ** 2 - B ** 2) / A ** 2), sp.together(ev ** 2 - (A ** 2 - B ** 2) / A ** 2)]), 'F1', 'EarthEllipsoid:e2',
+                           'EarthEllipsoid(a,b) does not define e2 = (a^2-b^2)/a^2 and e = sqrt(e2): e2 = %s' % str(e2v)[:160], 'e2 = (a^2 - b^2)/a^2, e = sqrt(e2)', fx.rel(ell[0]['loc']), domain=dom_)
+            # the sphere (flattening 0, b == a) is an ellipsoid of the quantifier: e2 must be the finite value 0 there
+            bad_s = None
+            for nm_, v_ in (('e2', e2v), ('e', ev)):
+                try:
+                    at = v_.subs(B, A)
+                    at = sp.simplify(at) if at.free_symbols else at
+                except Exception:
+                    at = sp.nan
+                lim_ok = at == 0
+                if not lim_ok:
+                    num_ = v_.subs({A: 6378137, B: 6378137})
+                    if num_ in (sp.nan, sp.zoo, sp.oo, -sp.oo) or num_.has(sp.nan) or num_.has(sp.zoo):
+                        bad_s = bad_s or (nm_, v_, num_)
+            if bad_s:
+                R.violated('F1', 'EarthEllipsoid:sphere', 'for the sphere (b == a, flattening 0, named by the quantifier) the constructor evaluates %s = %s to %s: every conversion on that ellipsoid is NaN, '
+                           'not a finite value in range' % (bad_s[0], str(bad_s[1])[:140], bad_s[2]), fx.rel(ell[0]['loc']), 'E-INT')
+            else:
+                R.holds('F1', 'EarthEllipsoid:sphere', 'e2 and e evaluate to finite values for b == a', fx.rel(ell[0]['loc']), 'E-INT')
+    else:
+        R.undecided('F1', 'EarthEllipsoid:e2', 'constructor forks')
     # ---- F1 ----------------------------------------------------------------------------
     foreign = sorted({s.name for c in (X, Y, Z) for s in c.free_symbols} - {lat.name, lon.name, h.name, a.name, e2.name})
     R.check(not foreign, 'F1', 'ECEFConverter::toECEF:own-ellipsoid', 'the forward map depends on %s besides the point and the converter\'s own ellipsoid: converters built on another ellipsoid are wrong' % foreign,
@@ -293,10 +317,14 @@ def check_inverse(fx, R, f, fwd):
                 continue
             stale = sorted(n_ for n_, i_ in ids.items() if n_ not in ('latitude', 'altitude') and isinstance(st.locals.get(i_), sp.Basic) and st.locals[i_].has(prev)
                            and any(y.get('k') == 'Ref' and y.get('id') == i_ for p_ in post for y in walk(p_)))
-            if worst[0] > 2e-3:
+            if worst[0] > 2e-3 and stale:
                 R.violated('F7', 'ECEFConverter::toWGS84:altitude-freshness', 'the altitude is computed from %s, which the loop body evaluated at the PREVIOUS latitude iterate and did not refresh after the last update: '
                            'the loop exits with |latitude - previous| <= %g, not 0, and d altitude / d previous = %.3g m/rad at latitude %s deg, height %s m, so the height is off by up to %.2g m (statement: 1 mm); '
-                           'the returned latitude and longitude are unaffected' % (stale or 'values of the previous iterate', tol, worst[3], sp.N(worst[1] * 180 / sp.pi, 4), worst[2], worst[0]), loc, 'E-INT')
+                           'the returned latitude and longitude are unaffected' % (stale, tol, worst[3], sp.N(worst[1] * 180 / sp.pi, 4), worst[2], worst[0]), loc, 'E-INT')
+            elif worst[0] > 2e-3:
+                R.violated('F7', 'ECEFConverter::toWGS84:altitude-sensitivity', 'the iteration stops at |latitude - previous| <= %g; the altitude norm/cos(lat) - N is evaluated at the returned latitude, whose distance to the '
+                           'fixed point the last step still carries, and d altitude / d previous = %.3g m/rad at latitude %s deg, height %s m: the height is off by up to %.2g m (statement: 1 mm) although the '
+                           'latitude itself is within 1e-9 rad - the stopping tolerance is too loose for the height clause' % (tol, worst[3], sp.N(worst[1] * 180 / sp.pi, 4), worst[2], worst[0]), loc, 'E-INT')
             elif worst[0] < 5e-4:
                 R.holds('F7', 'ECEFConverter::toWGS84:altitude-freshness', 'first-order effect of the last step on the altitude is at most %.2g m on the witness points (the altitude is recomputed from the returned latitude)' % worst[0],
                         loc, 'E-INT')
